@@ -83,6 +83,26 @@ def removePlan (fs : Fs) (old new : List Entry) : List Entry :=
   ((liveIntersect fs old).filter (fun e => decide (e.loc ∉ new.map (·.loc)))).filter
     (fun e => decide (e.loc ∉ protectedPaths))
 
+/-! ### `get_remove_cset` with the live-fs name resolution made explicit
+
+On a root with directory symlinks one file has several names.  `resP p` = `p` with its directory part resolved
+on the live file system (`livefs._realpath_dir`), `resF p` = `p` fully resolved (`fsBase.realpath`); on literal
+paths both are the identity.  `live` = the live objects at the old package's recorded locations
+(`old_cset`). -/
+
+/-- the names under which the new package's entries exist on the live file system -/
+def keptNames (resP resF : Path → Path) (new : List Entry) : List Path :=
+  new.flatMap fun x => resP x.loc :: (if x.isDir then [resF x.loc] else [])
+
+/-- `get_remove_cset`: old entries that are not new entries, under no name -/
+def removeCsetOf (resP resF : Path → Path) (live new : List Entry) : List Entry :=
+  (live.filter (fun e => decide (e.loc ∉ new.map (·.loc)))).filter
+    (fun e => decide (resP e.loc ∉ keptNames resP resF new))
+
+/-- … after `BaseSystemUnmergeProtection` -/
+def removePlanOf (resP resF : Path → Path) (live new : List Entry) : List Entry :=
+  (removeCsetOf resP resF live new).filter (fun e => decide (e.loc ∉ protectedPaths))
+
 /-- `MergeEngine.uninstall(...)`: hooks … `unmerge` … -/
 def engineUninstall (env : Env) (old : List Entry) (fs : Fs) : St × Except Exc Unit :=
   unmergeContents env (uninstallPlan fs old) fs
